@@ -15,7 +15,7 @@ CHECKS = {
          "before its start; a vetoing bool action restores for every requested mode; every atom peeks before it bumps. Proved by closure of one invariant under "
          "all 25 match() bodies and the match.hpp protocol, then induction on fuel. The model is tied to /repo by a full-trace differential run (every "
          "Control<Rule>::match invocation, hidden internal rules included) and the property is also evaluated directly on the implementation's own trace."),
-   note=GENERAL_NOTE + " Modelled so far: core, convenience and try_catch/must rules and all one-argument ascii atoms; contrib rules (integer, raw_string, rep_one_min_max, predicates, http chunk) are covered by their own leaf models where claimed, not yet by this invariant.",
+   note=GENERAL_NOTE + " Modelled: core, convenience, state and try_catch/must rules, all one-argument ascii atoms, utf8 ranges, maximum_rule, contrib rep_one_min_max, contrib predicates (resolved to their byte sets); integer and raw_string rules are covered by their own leaf models (C15, C16); the http chunk rules only by C03's shipped-grammar run.",
    technique="Lean 4 proof by invariant closure + induction on fuel over an executable model; differential correspondence on generated C++ grammars; trace oracle"),
  'C01': dict(engine='matcher-model', design_ref='DESIGN.md §6 C01',
    text=("Proof (Lean 4): `run` (the model of Control<Rule>::match / match.hpp / every internal match() body) refines the big-step PEG formalism Sem (ordered choice, greedy "
@@ -39,14 +39,14 @@ CHECKS = {
          "inside it — a parse_error at a raise hook for the same rule with the same position, a foreign exception by an action call of that rule — i.e. it passed every combinator in between unchanged (C05_origin, by a "
          "trace invariant closed over all rule bodies and the match.hpp protocol); must<R> raises where R's attempt ended, not before where it began (C05_must_position); error positions are scan positions of a consumed prefix, "
          "so byte/line/column are mutually consistent (C05_position_consistent); try_catch_*_return_false / _raise_nested convert exactly the exception classes they name and restore the cursor when required (C05_catch_*)."),
-   note=GENERAL_NOTE + " The what() string 'source:line:column: message' is produced by unmodelled C++ string code; the harness compares it on every observed parse_error. must_if controls are not modelled.",
+   note=GENERAL_NOTE + " The what() string 'source:line:column: message' is produced by unmodelled C++ string code; the harness compares it on every observed parse_error. The must_if< Errors > control is covered by an oracle-only part (custom messages, raise_on_failure), not by the Lean model.",
    technique="Lean 4 refinement (blame) + trace-invariant proof (origin, positions) + local characterisation of must/try_catch bodies; differential correspondence; trace oracles for identity, interval, conversion"),
  'C06': dict(engine='matcher-model', design_ref='DESIGN.md §6 C06',
    text=("Proof (Lean 4): a scan of the consumed prefix (what lazy inputs do) computes exactly the documented position (C06_scan_spec); from a tracked cursor, after any invocation — whatever consumed the prefix and however "
          "often the parser backtracked — the eagerly tracked cursor is again that of a scan, and every position in every event (hooks, action inputs, enter/exit, raise) is the scan position of a consumed prefix, hence identical for "
          "eager and lazy inputs (C06_tracked, C06_reported, C06_lazy_eq_eager, C06_parse): each atom's bump_in_this_line / bump_to_next_line shortcut is justified from its test_any. Scope: every eol policy except cr_crlf, "
-         "for which the property is false (C06_cr_crlf_witness, known finding F11), byte-oriented atoms."),
-   note=GENERAL_NOTE + " Partial: eol::cr_crlf excluded (KNOWN-FINDING F11); the UTF-8 range atom and the integer digit-run atom are covered by the correspondence run only; parse-tree node positions are covered by C12 when built.",
+         "for which the property is false (C06_cr_crlf_witness, known finding F11); every atom is covered (C06_scope), the UTF-8 range atom, maximum_rule's digit run and rep_one_min_max included."),
+   note=GENERAL_NOTE + " Partial: eol::cr_crlf excluded (KNOWN-FINDING F11). Parse-tree node positions are the enter/exit cursors of C12's theorem.",
    technique="Lean 4 invariant proof (eager tracking = scan) over atoms and all rule bodies; differential correspondence under 5 eol policies x eager/lazy; independent Python recomputation of positions; eager/lazy pairing oracle"),
  'C08': dict(engine='matcher-model', design_ref='DESIGN.md §6 C08',
    text=("Proof (Lean 4): the trace of every invocation of the model — any grammar table, input, mode, void / vetoing / throwing / match()-wrapping actions, controls with and without unwind() — is accepted by the "
@@ -60,7 +60,7 @@ CHECKS = {
          "try_catch_*, enable/disable) refines, in the PEG formalism with labelled failures, the documented expansion of its rule (Spec.expandKind): same accepted inputs, same consumed prefix, "
          "same blamed rule (C09_refines, C09_exact); where the reference gives two expansions they are proved equivalent (C09_two_forms_*). Alias rules (list*, pad*, minus, rep_min, rep_max, "
          "star_must, if_must_else, keyword, identifier, shebang, ...) are the same C++ type as their expansion; the resolver expands them like the using-declarations and the differential run checks it."),
-   note=GENERAL_NOTE + " expandKind is transcribed by hand from doc/Rule-Reference.md (a mismatch with the code shows up in the semEval oracle, a mismatch with the doc would not). string/istring/ranges/rep_one_min_max/rep_string/separated_seq/if_then equivalences are not yet covered by a theorem.",
+   note=GENERAL_NOTE + " expandKind is transcribed by hand from doc/Rule-Reference.md (a mismatch with the code shows up in the semEval oracle, a mismatch with the doc would not). string / istring / bytes / contrib rep_one_min_max equal their documented sequences (C09_string_expansion, C09_istring_expansion, C09_bytes_expansion, C09_rep_one_min_max); ranges, rep_string, separated_seq and if_then equivalences are not covered by a theorem.",
    technique="Lean 4 refinement proof of each optimised rule body into the PEG semantics of its documented expansion; differential correspondence; spec-evaluator oracle"),
  'C10': dict(engine='leaf-encodings', design_ref='DESIGN.md §6 C10',
    text=("Proof (Lean 4): peekUtf8 accepts exactly the well-formed encodings of scalar values (= Unicode Table 3-7; no overlong forms, surrogates, > U+10FFFF, truncations) with N = encoding length; "
